@@ -60,6 +60,12 @@ StrSeqProg == <<[t |-> "for", tag |-> "for", var |-> <<105>>, coll |-> Var(A), r
                 Ob(P(Var(A), B_size)), Ob(Ix(Var(A), Lit(IntV(0)))), Bar, Ob(Fl(Fl(Var(A), "sort_natural", <<>>), "join", <<>>)), Bar,
                 Ob(Fl(Fl(Var(A), "sort", <<>>), "first", <<>>)), Ob(Fl(Fl(Var(A), "uniq", <<>>), "size", <<>>))>>
 MapSzProg == <<T(<<91>>), Ob(P(Var(M), B_size)), Bar, Ob(Ix(Var(M), Lit(Str(B_size)))), Bar, Ob(P(Var(M), KK)), Bar, Bit(P(Var(M), B_size)), T(<<93>>)>>
+\* an array of maps: `map` is the per-element property lookup (so "size" is the entry under that key, or the number of entries),
+\* whatever holds each element
+MapElemsProg == <<Ob(Fl(Fl(Var(A), "map", <<Lit(Str(B_size))>>), "join", <<Lit(Str(<<44>>))>>)), Bar, Ob(Fl(Fl(Var(A), "map", <<Lit(Str(KK))>>), "join", <<Lit(Str(<<44>>))>>)), Bar,
+                  [t |-> "for", tag |-> "for", var |-> <<105>>, coll |-> Var(A), body |-> <<Ob(P(Var(<<105>>), B_size)), T(<<44>>)>>], Bar,
+                  Ob(Fl(Fl(Fl(Var(A), "map", <<Lit(Str(JJ))>>), "compact", <<>>), "size", <<>>)), Bar, Ob(P(Ix(Var(A), Lit(IntV(1))), B_size)), Bar,
+                  Ob(Fl(Fl(Fl(Var(A), "sort", <<Lit(Str(KK))>>), "map", <<Lit(Str(KK))>>), "join", <<Lit(Str(<<44>>))>>))>>
 MapProg == <<Ob(P(Var(M), KK)), Bar, Ob(Ix(Var(M), Lit(Str(JJ)))), Bar, Ob(P(Var(M), B_size)), Bar, Bit(Cmp("==", P(Var(M), KK), Lit(IntV(1)))),
              Ob(P(Var(M), <<122>>)), Bar, Ob(Fl(P(Var(M), KK), "plus", <<P(Var(M), JJ)>>))>>
 \* (size is not probed: for a []byte both the byte count and the character count are defensible)
@@ -77,6 +83,7 @@ DropProg == <<[t |-> "for", tag |-> "for", var |-> <<105>>, coll |-> Var(A), bod
 \* a typed slice wherever a value can go (most of these the reference leaves open - what an array turns into as
 \* text, say; the harness compares every realisation with the generic one, which is what C18 states)
 Bang == Lit(Str(<<33>>))
+MapElemReprs == {"", "mapint", "mapslice", "drop", "ptr", "anystrkeys"}
 SeqTextProbes == <<
   Ob(Fl(Var(A), "append", <<Bang>>)), Ob(Fl(Bang, "append", <<Var(A)>>)), Ob(Fl(Var(A), "prepend", <<Bang>>)), Ob(Fl(Var(A), "upcase", <<>>)),
   Ob(Fl(Var(A), "remove", <<Lit(Str(<<49>>))>>)), Ob(Fl(Var(A), "replace", <<Lit(Str(<<32>>)), Lit(Str(<<95>>))>>)),
@@ -129,6 +136,7 @@ Cases ==
   \cup [g : {"map"}, r : {"", "mapint", "mapslice", "drop", "ptr", "ptrmapslice", "ptrptr"}, er : {"", "drop", "int32", "uint8"}]
   \* a map with a size key that holds nil: the key wins over the entry count, in every representation
   \cup [g : {"mapsz"}, r : {"", "mapslice", "drop", "ptr", "anystrkeys", "ptrmapslice"}]
+  \cup [g : {"mapelems"}, r : {"", "array3", "drop"}, e0 : MapElemReprs, e1 : MapElemReprs]
   \cup [g : {"bytes"}, r : {"", "bytes", "drop", "ptr"}]
   \cup [g : {"ptr"}, r : {"", "ptr", "ptrptr"}, mr : {"", "ptr", "ptrptr"}]
   \cup [g : {"drop"}, bits : IF Full THEN 0..511 ELSE {0, 511} \cup {2^i : i \in 0..8} \cup {511 - 2^i : i \in 0..8}]
@@ -145,7 +153,7 @@ ProgOf(x) ==
     [] x.g = "nilseq" -> <<NilSeqProbes[x.p]>>
     [] x.g = "shared" -> <<SharedProbes[x.p]>>
     [] x.g \in {"num", "numf"} -> NumProg [] x.g = "flt" -> FltProg [] x.g = "seq" -> SeqProg [] x.g = "strseq" -> StrSeqProg
-    [] x.g = "map" -> MapProg [] x.g = "mapsz" -> MapSzProg [] x.g = "bytes" -> BytesProg [] x.g = "ptr" -> PtrProg [] x.g = "drop" -> DropProg
+    [] x.g = "map" -> MapProg [] x.g = "mapsz" -> MapSzProg [] x.g = "mapelems" -> MapElemsProg [] x.g = "bytes" -> BytesProg [] x.g = "ptr" -> PtrProg [] x.g = "drop" -> DropProg
 M1(k, v) == MapV(<< <<k, v>> >>)
 EnvOf2(x) ==
   CASE x.g = "member" -> << <<A, Arr(<<IntV(1), IntV(2), IntV(3)>>)>>, <<X, IntV(x.xv)>> >>
@@ -161,6 +169,7 @@ EnvOf2(x) ==
     [] x.g = "strseq" -> << <<A, Arr(<<Str(<<99>>), Str(<<97>>), Str(<<98>>)>>)>> >>
     [] x.g = "map" -> << <<M, MapV(<< <<JJ, IntV(4)>>, <<KK, IntV(1)>> >>)>> >>
     [] x.g = "mapsz" -> << <<M, MapV(<< <<KK, IntV(1)>>, <<B_size, Nil>> >>)>> >>
+    [] x.g = "mapelems" -> << <<A, Arr(<<MapV(<< <<JJ, IntV(4)>>, <<KK, IntV(2)>> >>), M1(KK, IntV(1)), M1(B_size, IntV(7))>>)>> >>
     [] x.g = "bytes" -> << <<S0, Str(<<104, 195, 169, 108, 108, 111>>)>> >>
     [] x.g = "ptr" -> << <<M, M1(PP, Str(<<113>>))>>, <<PP, Str(<<118>>)>> >>
     [] x.g = "drop" -> << <<A, Arr(<<M1(KK, IntV(1)), M1(KK, Str(<<118>>))>>)>>, <<<<102>>, Bool(FALSE)>>, <<<<108>>, Arr(<<Str(<<98>>), Str(<<97>>)>>)>>,
@@ -178,6 +187,7 @@ ReprOf(x) ==
     [] x.g = "strseq" -> H("a", x.r) @@ (IF x.r \in {"", "array3", "drop"} THEN H("a/0", x.er) ELSE <<>>)
     [] x.g = "map" -> H("m", x.r) @@ (IF x.r # "mapint" THEN H("m/k", x.er) ELSE <<>>)
     [] x.g = "mapsz" -> H("m", x.r)
+    [] x.g = "mapelems" -> H("a", x.r) @@ H("a/0", x.e0) @@ H("a/1", x.e1) @@ H("a/2", x.e0)
     [] x.g = "bytes" -> H("s", x.r)
     [] x.g = "ptr" -> H("p", x.r) @@ H("m/p", x.mr)
     [] x.g = "drop" -> DH("a", x.bits, 1) @@ DH("a/0", x.bits, 2) @@ DH("a/1", x.bits, 3) @@ DH("a/0/k", x.bits, 4) @@ DH("x", x.bits, 5)
